@@ -61,8 +61,17 @@ def slice_len(ctx, a, b, st):
             if st == -1:
                 return V.simp(V.vmax(0, d2))
             return V.simp(V.Ite(V.le(d2, 0), 0, (V.Z(d2) + (-st - 1)) / (-st)))
+    # one symbol per (a, b, step): the length is a function of its arguments
+    cache = ctx.__dict__.setdefault("slice_len_cache", {})
+    key = (V.Z(d).sexpr(), V.Z(st).sexpr())
+    if key in cache and any(f is cache[key][1] for f in ctx.pc):
+        return cache[key][0]
     L = ctx.fresh("len", "int")
     d, stz = V.Z(d), V.Z(st)
+    fact = z3.And(L >= 0, z3.If(d <= 0, L == 0, z3.And((L - 1) * stz < d, d <= L * stz)))
+    ctx.assume(fact, why="slice-len-def")
+    cache[key] = (L, ctx.pc[-1])
+    return L
     ctx.assume(z3.And(L >= 0, z3.If(d <= 0, L == 0, z3.And((L - 1) * stz < d, d <= L * stz))), why="slice-len-def")
     return L
 
